@@ -101,9 +101,9 @@ def regex_info(cx):
     if cap is None:
         raise Unsupported("Frame::from_bytes does not branch on Regex::captures(..)")
     re_t = cap[2][0]
-    if not (re_t[0] == "app" and re_t[1] == "lazy" and re_t[2][0][0] == "fn"):
+    if not (re_t[0] == "app" and re_t[1] == "lazy" and re_t[2][0][0] in ("fn", "closure")):
         raise Unsupported("the regex is not a lazily initialised static (%s)" % fmt_term(re_t)[:60])
-    init_path = re_t[2][0][1][0]
+    init_path = re_t[2][0][1][0] if re_t[2][0][0] == "fn" else re_t[2][0][1]       # lazy_static's initialiser fn / LazyLock's closure
     init = cx.prog.fns.get(init_path)
     if init is None:
         raise Unsupported("regex initialiser %s not found" % init_path)
